@@ -920,6 +920,23 @@ func (r *c04Rec) seal() {
 	}
 }
 
+// c04YieldLogger is the logger handed to the controllers in E4.  The connection controller consults
+// logger.Debug() inside its critical section on every GetWindowUpdate; yielding there lets the other
+// goroutines run into the held mutex, so that operations really overlap (adversarial schedule through
+// an injected dependency, the code under test is untouched).
+type c04YieldLogger struct {
+	utils.Logger
+	yields *atomic.Int64
+}
+
+func (l c04YieldLogger) Debug() bool {
+	l.yields.Add(1)
+	runtime.Gosched()
+	return false
+}
+
+func (l c04YieldLogger) Debugf(string, ...any) { runtime.Gosched() }
+
 type c04EStream struct {
 	fc          StreamFlowController
 	mu          sync.Mutex // plays the role of the ReceiveStream mutex
@@ -982,13 +999,16 @@ func c04E4History(rng *rand.Rand, cfg c04ECfg) *c04EResult {
 		rtt.UpdateRTT(time.Duration(cfg.RTTns), 0)
 	}
 	var allowCalls atomic.Int64
-	conn := newC04ConnWrap(c04bc(cfg.ConnW), c04bc(cfg.ConnMaxW), func(c04bc) bool { allowCalls.Add(1); return true }, rtt)
+	var yields atomic.Int64
+	ylog := c04YieldLogger{Logger: utils.DefaultLogger, yields: &yields}
+	realConn := NewConnectionFlowController(c04bc(cfg.ConnW), c04bc(cfg.ConnMaxW), func(c04bc) bool { allowCalls.Add(1); runtime.Gosched(); return true }, rtt, ylog)
+	conn := &c04ConnWrap{ConnectionFlowController: realConn, ext: realConn}
 	conn.rec = rec
 	var streams [4]*c04EStream
 	for i := range streams {
 		w := cfg.StreamW[i]
 		st := &c04EStream{initW: w[0], maxW: w[1]}
-		st.fc = NewStreamFlowController(protocol.StreamID(4*i), conn, c04bc(w[0]), c04bc(w[1]), c04bc(w[0]), rtt, utils.DefaultLogger)
+		st.fc = NewStreamFlowController(protocol.StreamID(4*i), conn, c04bc(w[0]), c04bc(w[1]), c04bc(w[0]), rtt, ylog)
 		st.advPub.Store(w[0])
 		streams[i] = st
 	}
@@ -1171,7 +1191,7 @@ func c04E4History(rng *rand.Rand, cfg c04ECfg) *c04EResult {
 			rg := rand.New(rand.NewPCG(seeds[5+p][0], seeds[5+p][1]))
 			barrier()
 			for k := 0; k < 400000 && !stop.Load(); k++ {
-				pollOne(rg.IntN(5), int64(rg.IntN(200000)))
+				pollOne(min(rg.IntN(7), 4), int64(rg.IntN(200000)))
 				runtime.Gosched()
 			}
 		}(p)
@@ -1350,6 +1370,7 @@ func c04E4History(rng *rand.Rand, cfg c04ECfg) *c04EResult {
 		}
 	}
 	res.n["e4_allow_window_increase_calls"] += allowCalls.Load()
+	res.n["e4_yields_inside_conn_critical_section"] += yields.Load()
 	res.n["e4_ensure_min_window_calls"] += conn.ensureCalls.Load()
 	return res
 }
